@@ -179,6 +179,7 @@ func c06(r *ev.Run) {
 	runAPIPart(r, "policy", false, nil, 10*time.Minute)
 	runAPIPart(r, "policy-race", true, []string{"proc/internal/lb/lb.go"}, 10*time.Minute)
 	c06EndToEnd(r)
+	c06HealthCheckToggled(r)
 	r.Require("least_connection_sample_pairs_judged", 1000)
 	r.Require("settled_bursts_judged", 20)
 	r.Require("connections_closed_on_host_removal", 3)
@@ -524,4 +525,140 @@ func c06History(r *ev.Run, s *sutc.SUT, rnd *rand.Rand, policy service.LoadBalan
 			r.Sample(map[string]interface{}{"policy": policy.String(), "members": fmt.Sprint(member), "usable": fmt.Sprint(use), "landed": landed})
 		}
 	}
+}
+
+// c06HealthCheckToggled: health checking is switched off and on again by configuration updates of a running service. While it is
+// off every member is considered healthy (as in a service started without a health check), also the one the monitor had marked
+// unhealthy before; while it is on the failing member gets no connection once the monitor has seen it fail.
+func c06HealthCheckToggled(r *ev.Run) {
+	s, err := startSUT(r, false, 0, 0)
+	if err != nil {
+		r.Internal("start sut: %v", err)
+		return
+	}
+	defer s.Close()
+	type be struct {
+		b       *tcpsim.Backend
+		good    int32
+		probes  int64
+		relayed int64
+	}
+	bes := make([]*be, 2)
+	for i := range bes {
+		e := &be{good: 1}
+		b, err := tcpsim.NewBackend(func(_ *tcpsim.Backend, c net.Conn) {
+			defer c.Close()
+			var first [3]byte
+			c.SetReadDeadline(time.Now().Add(5 * time.Second))
+			if _, err := io.ReadFull(c, first[:]); err != nil {
+				return
+			}
+			if string(first[:]) == "HC?" {
+				atomic.AddInt64(&e.probes, 1)
+				if atomic.LoadInt32(&e.good) == 1 {
+					c.Write([]byte("OK"))
+				} else {
+					c.Write([]byte("NO"))
+				}
+				return
+			}
+			atomic.AddInt64(&e.relayed, 1)
+			c.Write([]byte("hi\n"))
+			io.Copy(io.Discard, c)
+		})
+		if err != nil {
+			r.Internal("backend: %v", err)
+			return
+		}
+		e.b = b
+		bes[i] = e
+		defer b.Close()
+	}
+	hc := &hcpb.HealthCheck{Interval: 25 * time.Millisecond, Timeout: time.Second, FallThreshold: 2, RiseThreshold: 2,
+		Checker: &hcpb.HealthCheck_AtcpChecker{AtcpChecker: &hcpb.ATCPChecker{Action: []*hcpb.ATCPChecker_Action{{Send: []byte(`"HC?"`), Expect: []byte(`"OK"`)}}}}}
+	opts := TCPOpts{Policy: service.LoadBalancePolicy_ROUND_ROBIN, HealthCheck: hc}
+	svc, err := startTCPSvc(s, []sutc.Host{{Addr: bes[0].b.Addr}, {Addr: bes[1].b.Addr}}, opts)
+	if err != nil {
+		r.Internal("%v", err)
+		return
+	}
+	defer s.StopProc(svc.Name, 20*time.Second)
+	atomic.StoreInt32(&bes[1].good, 0) // member 1 fails its probes from now on
+	connect := func(n int) (got [2]int64, failed int) {
+		base := [2]int64{atomic.LoadInt64(&bes[0].relayed), atomic.LoadInt64(&bes[1].relayed)}
+		for i := 0; i < n; i++ {
+			c, err := net.DialTimeout("tcp", svc.Addr, 2*time.Second)
+			if err != nil {
+				failed++
+				continue
+			}
+			c.SetDeadline(time.Now().Add(3 * time.Second))
+			c.Write([]byte("REQ-12345678"))
+			buf := make([]byte, 8)
+			if k, _ := c.Read(buf); k == 0 {
+				failed++
+			}
+			c.Close()
+		}
+		time.Sleep(30 * time.Millisecond)
+		return [2]int64{atomic.LoadInt64(&bes[0].relayed) - base[0], atomic.LoadInt64(&bes[1].relayed) - base[1]}, failed
+	}
+	waitProbes := func(n int64) bool {
+		base := atomic.LoadInt64(&bes[1].probes)
+		for i := 0; i < 400; i++ {
+			if atomic.LoadInt64(&bes[1].probes)-base >= n {
+				time.Sleep(40 * time.Millisecond)
+				return true
+			}
+			time.Sleep(10 * time.Millisecond)
+		}
+		return false
+	}
+	rounds := 3
+	if r.Tier == "thorough" {
+		rounds = 15
+	}
+	for round := 0; round < rounds; round++ {
+		// (1) health check on: after >= 5 failed probes member 1 gets nothing
+		if !waitProbes(5) {
+			r.Inconclusive("health-check-toggled:no-probes")
+			return
+		}
+		got, failed := connect(12)
+		w := map[string]interface{}{"round": round, "relayed_to_healthy_member": got[0], "relayed_to_failing_member": got[1], "connections_not_served": failed}
+		if got[1] != 0 || failed != 0 || got[0] != 12 {
+			r.Violation("C06:unhealthy-host-used:health-check-on", "with the health check on, connections were relayed to the member that fails its probes (or not served)", w)
+		}
+		// (2) health check switched off by a configuration update
+		off := opts
+		off.HealthCheck = nil
+		if err := s.ConfigUpdate(svc.Name, tcpConfigJSON(svc.Port, off)); err != nil {
+			if sutDied(r, s, map[string]interface{}{"step": "configuration update that removes the health check", "round": round}) {
+				return
+			}
+			r.Violation("C06:config-update-rejected:health-check-removed", "a valid configuration update that removes the health check was rejected: "+err.Error(), w)
+			return
+		}
+		if sutDied(r, s, map[string]interface{}{"step": "configuration update that removes the health check", "round": round}) {
+			return
+		}
+		got, failed = connect(12)
+		w = map[string]interface{}{"round": round, "relayed_to_member_0": got[0], "relayed_to_member_1": got[1], "connections_not_served": failed}
+		if failed != 0 || got[0]+got[1] != 12 {
+			r.Violation("C06:connection-not-served:health-check-off", "with the health check switched off, connections were not served", w)
+		} else if got[0] != 6 || got[1] != 6 {
+			r.Violation("C06:round-robin-uneven:health-check-off", "with the health check switched off every member is considered healthy: round robin over 2 members must give each 6 of 12 connections", w)
+		}
+		// (3) and on again
+		if err := s.ConfigUpdate(svc.Name, tcpConfigJSON(svc.Port, opts)); err != nil {
+			r.Violation("C06:config-update-rejected:health-check-added", "a valid configuration update that adds a health check was rejected: "+err.Error(), w)
+			return
+		}
+		if sutDied(r, s, map[string]interface{}{"step": "configuration update that adds the health check", "round": round}) {
+			return
+		}
+		r.Count("health_check_toggles", 1)
+		r.Case("hc-toggled")
+	}
+	r.Require("health_check_toggles", 2)
 }
